@@ -91,8 +91,9 @@ def run_real_c13(case):
     res = Result()
     rng = random.Random(case["seed"])
     with gen.Project() as proj:
-        marker = "300.%06d" % rng.randrange(10**6)
-        marker2 = "301.%06d" % rng.randrange(10**6)
+        uniq = "%05d%04d" % (os.getpid() % 100000, int(time.time() * 10) % 10000)  # never equal to a leftover of an earlier run
+        marker = "300.%06d%s" % (rng.randrange(10**6), uniq)
+        marker2 = "301.%06d%s" % (rng.randrange(10**6), uniq)
         big = 200_000
         ts = [
             {"name": "big", "ins_expr": "[]", "outs_expr": "['big.out']", "spec": "head -c %d /dev/zero | tr '\\0' 'o'\nhead -c %d /dev/zero | tr '\\0' 'e' >&2\necho done > big.out\n" % (big, big), "route": "target"},
@@ -164,7 +165,7 @@ def run_real_c13(case):
                         pass
             # the shell has exited but a background child still holds the output pipes: the task is still
             # RUNNING; cancelling it now must take the child down too
-            marker3 = "302.%06d" % rng.randrange(10**6)
+            marker3 = "302.%06d%s" % (rng.randrange(10**6), uniq)
             t5 = pool.raw_enqueue("bgchild", "sleep %s &\necho started\nexit 0\n" % marker3, proj.root, time_limit=None, deps=[])
             pool.wait_states(lambda st: st.get(t5) == "RUNNING", timeout=15)
             time.sleep(0.6)
@@ -184,7 +185,7 @@ def run_real_c13(case):
                         except OSError:
                             pass
             # the same with a time limit
-            marker4 = "303.%06d" % rng.randrange(10**6)
+            marker4 = "303.%06d%s" % (rng.randrange(10**6), uniq)
             t6 = pool.raw_enqueue("bgchild_tl", "sleep %s &\necho started\nexit 0\n" % marker4, proj.root, time_limit=1, deps=[])
             pool.wait_states(lambda st: st.get(t6) in ("KILLED", "FAILED", "COMPLETED"), timeout=30)
             time.sleep(2.0)
@@ -209,4 +210,9 @@ def run_real_c13(case):
                 res.violation("pool-died", "worker pool process exited: %s" % pool.read_log()[-500:])
         res.sig = ("real", case["cores"], case["seed"] % 3)
         res.nontrivial = True
+        for p in marker_pids(uniq):  # never leave anything behind, whatever happened above
+            try:
+                os.kill(p, 9)
+            except OSError:
+                pass
     return res
